@@ -8,10 +8,10 @@ ID = "C05"
 OWN = ("obj",)
 
 TERMS = ["mayer_tf", "mayer_t0", "sum", "sum_last", "int_control", "integral", "integral_t", "integral_one",
-         "integral_pc", "integral_pcq", "integral_vc", "T", "tf", "vg", "pg", "int_T", "int_z"]
+         "integral_pc", "integral_pcq", "integral_vc", "T", "tf", "vg", "pg", "int_T", "int_z", "qstate_t"]
 DIMS = dict(
     term1=["integral"] + [t for t in TERMS if t != "integral"],
-    term2=["mayer_tf", "none", "same", "sum", "integral_t", "int_control"],
+    term2=["mayer_tf", "none", "same", "sum", "integral_t", "int_control", "qstate_t"],
     term3=["none", "sum_last", "integral_one", "T"],
     method=["MS", "SS", "DC"],
     intg=["rk", "expl_euler"],
